@@ -47,9 +47,32 @@ RELS = {
 # (probe:bitwise_equal) but not demanded: differences up to ROUNDING pass, anything larger must be explained by the
 # conditioning of the problem (two-sided guard below) or is a violation.
 ROUNDING = 1e-12
-TOL = {"R1": ROUNDING, "R1p": ROUNDING, "R1s": ROUNDING, "R1g": ROUNDING, "R1f": ROUNDING, "R2": ROUNDING, "R2d": ROUNDING, "R3": ROUNDING, "R1o": ROUNDING, "R1h": 1e-8, "R4": 1e-12, "R5": 1e-8, "R6": 1e-8, "R7": 1e-8}
+TOL = {"R1": ROUNDING, "R1p": ROUNDING, "R1s": ROUNDING, "R1g": ROUNDING, "R1f": ROUNDING, "R2": ROUNDING, "R2d": ROUNDING, "R3": ROUNDING, "R1o": ROUNDING, "R1d": ROUNDING, "R1h": 1e-8, "R4": 1e-12, "R5": 1e-8, "R6": 1e-8, "R7": 1e-8}
 FIT_TOL = 1e-6
 PQNR_KNOWN_MSG = "ERROR: L-BFGS first iterate is bad"
+
+
+def x_of(xenc) -> np.ndarray:
+    """The data array of a problem: stored cell by cell, or (large problems) regenerated from its recipe."""
+    if isinstance(xenc, dict) and "__recipe__" in xenc:
+        r = xenc["__recipe__"]
+        rs = np.random.RandomState(r["seed"] & 0x7FFFFFFF)
+        x = np.round(rs.uniform(r["lo"], r["hi"], tuple(r["shape"])), 6)
+        x[rs.uniform(0.0, 1.0, tuple(r["shape"])) < r["zero_frac"]] = 0.0
+        if r.get("pert") is not None:
+            x = x * (1.0 + 1e-13 * np.random.RandomState(r["pert"] & 0xFFFF).uniform(-1.0, 1.0, x.shape))
+        return x
+    return np.asarray(dec(xenc), dtype=float)
+
+
+def x_perturbed(init):
+    """The same data perturbed in the 13th digit (for the conditioning guard), in the stored form."""
+    xenc = init["x"]
+    if isinstance(xenc, dict) and "__recipe__" in xenc:
+        return {"__recipe__": dict(xenc["__recipe__"], pert=init["np_seed"])}
+    x = np.asarray(dec(xenc), dtype=float)
+    noise = np.random.RandomState(init["np_seed"] & 0xFFFF).uniform(-1.0, 1.0, x.shape)
+    return enc(x * (1.0 + 1e-13 * noise))
 
 
 class Skip(Exception):
@@ -72,6 +95,8 @@ class EngineC18:
         sw = st.get("swarm")
         g = st.get("gen")
         res = RunResult()
+        if sw.random() < 0.007:
+            return self._run_big(st, sw, g, res)
         alg = weighted(sw, [("cp_als", 4), ("cp_apr_mu", 2), ("cp_apr_pdnr", 3), ("cp_apr_pqnr", 1), ("hosvd", 2), ("tucker_als", 3), ("gcp_lbfgsb", 3)])
         N = weighted(sw, [(2, 1), (3, 5), (4, 1)]) if alg != "gcp_lbfgsb" else weighted(sw, [(2, 2), (3, 3), (4, 3)])
         shape = [sw.randint(2, 4) for _ in range(N)]
@@ -170,6 +195,8 @@ class EngineC18:
             d = list(range(N))
             g.shuffle(d)
             init["dimorder"] = d
+        # how a mode order is handed over (python list / tuple / numpy array)
+        init["dimorder_form"] = sw.choice(["list", "list", "tuple", "ndarray", "ndarray"])
         res.init = init
         rels = list(RELS[alg])
         if init.get("init_kind") != "random":
@@ -178,6 +205,8 @@ class EngineC18:
             rels = [r for r in rels if r not in ("R7", "R1g")]
         if alg == "hosvd" or init.get("init_kind") == "explicit":
             rels = [r for r in rels if r != "R1"] + (["R1"] if alg != "hosvd" else [])
+        if init.get("dimorder") is not None:
+            rels.append("R1d")
         g.shuffle(rels)
         n_rel = sw.randint(2, 5)
         steps = []
@@ -192,6 +221,35 @@ class EngineC18:
         res.nontrivial = res.stats.get("pairs_compared", 0) >= 2
         return res
 
+    def _run_big(self, st, sw, g, res: RunResult) -> RunResult:
+        """A problem with more than 2**16 stored entries (block-wise sparse kernels), regenerated from a recipe."""
+        alg = sw.choice(["cp_als", "cp_als", "cp_apr_mu"])
+        shape = sw.choice([[42, 42, 42], [90, 30, 28], [16, 17, 18, 16], [270, 260]])
+        apr = alg == "cp_apr_mu"
+        recipe = {"shape": shape, "seed": sw.randrange(2**31), "zero_frac": sw.choice([0.02, 0.05]), "lo": 0.2 if apr else -2.0, "hi": 3.0 if apr else 2.0}
+        N = len(shape)
+        init: Dict[str, Any] = {"alg": alg, "shape": shape, "x": {"__recipe__": recipe}, "np_seed": st.u32("np"), "arpack_seed": st.u32("arpack"), "int_storage": False, "big": True}
+        init["rank"] = sw.randint(1, 3)
+        init["maxiters"] = sw.randint(1, 2)
+        init["init_kind"] = "explicit"
+        if alg == "cp_als":
+            init["fixsigns"] = True
+        else:
+            init["maxinneriters"] = sw.choice([1, 3])
+            init["opts"] = {}
+        lo = 0.05 if apr else -1.0
+        init["factors"] = [enc(np.array([[round(g.uniform(lo, 1.0), 6) for _ in range(init["rank"])] for _ in range(shape[n])])) for n in range(N)]
+        init["stoptol"] = 0.0
+        init["dimorder"] = None
+        res.init = init
+        for step in [self._gen_rel("R5", init, g), self._gen_rel("R2", init, g)]:
+            res.steps.append(step)
+            if not self._exec(init, step, len(res.steps) - 1, res):
+                break
+        res.bump("probe:problem_with_more_than_65536_entries")
+        res.nontrivial = res.stats.get("pairs_compared", 0) >= 2
+        return res
+
     def _gen_rel(self, rel, init, g) -> Dict[str, Any]:
         N = len(init["shape"])
         if rel == "R1":
@@ -202,6 +260,9 @@ class EngineC18:
         if rel == "R1g":
             # the same explicit guess handed over in another form (Kruskal tensor / list / tuple of the factor matrices)
             return {"op": "R1g", "form": g.choice([f for f in ("ktensor", "list", "tuple") if f != init.get("guess_form", "ktensor")])}
+        if rel == "R1d":
+            # the same mode order handed over in another form
+            return {"op": "R1d", "form": g.choice([f for f in ("list", "tuple", "ndarray") if f != init.get("dimorder_form", "list")])}
         if rel == "R1o":
             # the optimizer object has a history: it solved another, larger problem before
             return {"op": "R1o", "other_seed": g.randrange(2**31), "grow": g.choice([1, 2, 3])}
@@ -255,7 +316,7 @@ class EngineC18:
         """Run the algorithm once in a fresh world under ``variant``; returns dict(full, fit, ...)."""
         ttb = self.ttb
         alg = init["alg"]
-        x = np.asarray(dec(init["x"]), dtype=float)
+        x = x_of(init["x"])
         scale = variant.get("scale", 1.0)
         perm = variant.get("perm")
         N = x.ndim
@@ -300,6 +361,12 @@ class EngineC18:
         if perm is not None:
             inv = {old: new for new, old in enumerate(perm)}
             dimorder = [inv[d] for d in dimorder]
+        if dimorder is not None:
+            dform = variant.get("dimorder_form") or init.get("dimorder_form", "list")
+            if dform == "tuple":
+                dimorder = tuple(dimorder)
+            elif dform == "ndarray":
+                dimorder = np.array(dimorder, dtype=int)
         printitn = variant.get("printitn", 0)
         stoptol = float(init.get("stoptol", 0.0)) if variant.get("use_stoptol") else 0.0
         if stoptol > 0.0 and "maxiters" in init:
@@ -478,6 +545,10 @@ class EngineC18:
             if init.get("init_kind") != "explicit":
                 raise Skip("no_explicit_guess")
             var = {"guess_form": step["form"]}
+        elif op == "R1d":
+            if init.get("dimorder") is None:
+                raise Skip("no_mode_order_given")
+            var = {"dimorder_form": step["form"]}
         elif op == "R1o":
             var = {"optimizer_history": {"seed": step["other_seed"], "grow": step["grow"]}}
             # long enough for the solver's own stopping tests (whose defaults may depend on the problem) to end the run
@@ -624,10 +695,8 @@ class EngineC18:
                 # conditioning guard: how far does the base run itself move when its data are perturbed in the
                 # 13th digit? A variant whose arithmetic differs in the last bits cannot be expected to agree
                 # better than that (observed: full-rank 2x3 matrix, rank-2 CP-ALS, 1.9e-8 after one sweep).
-                x = np.asarray(dec(init["x"]), dtype=float)
-                noise = np.random.RandomState(init["np_seed"] & 0xFFFF).uniform(-1.0, 1.0, x.shape)
                 init_p = dict(init)
-                init_p["x"] = enc(x * (1.0 + 1e-13 * noise))
+                init_p["x"] = x_perturbed(init)
                 pv = dict(base_v)
                 if "guess" in var and op != "R4":
                     pv["guess"] = base["guess_out"]
@@ -647,7 +716,7 @@ class EngineC18:
                 if d <= 100.0 * d_self:
                     raise Skip("ill_conditioned_problem")
             return V("same_model", f"relative difference {d:.3e} > {tol:g} between base and variant {step}")
-        if op in ("R1", "R1p", "R1s", "R1g", "R1o", "R3", "R4") and base["iters"] != other["iters"]:
+        if op in ("R1", "R1p", "R1s", "R1g", "R1d", "R1o", "R3", "R4") and base["iters"] != other["iters"]:
             return V("same_iteration_count", f"{base['iters']} vs {other['iters']} iterations")
         if op == "R2d" and base["iters"] != other["iters"]:
             return V("same_iteration_count", f"deadline cut after {base['iters']} vs {other['iters']} iterations under other verbosity")
@@ -710,10 +779,8 @@ class EngineC18:
             res.bump("probe:rounding_level_difference")
             return None
         # larger than rounding: only the conditioning of the problem can excuse it (same guard as in _relation)
-        x = np.asarray(dec(init["x"]), dtype=float)
-        noise = np.random.RandomState(init["np_seed"] & 0xFFFF).uniform(-1.0, 1.0, x.shape)
         init_p = dict(init)
-        init_p["x"] = enc(x * (1.0 + 1e-13 * noise))
+        init_p["x"] = x_perturbed(init)
         try:
             d_self = self._rel(base["full"], self._call(init_p, {})["full"])
         except Exception:  # noqa: BLE001
